@@ -25,6 +25,14 @@ theorem WellFormed.child_lt {t : Table} (h : WellFormed t) {i : Nat} (h1 : NUM_S
   have := h.inner h1 h2
   cases b <;> simp [child, childF, this.1, this.2.1]
 
+/-- all the decoder's termination and capacity theorems need of a table: every inner node's children
+have smaller indices -/
+def ChildLt (t : Table) : Prop :=
+  ∀ i, NUM_SYMBOLS ≤ i → i < NUM_NODES → ∀ b, child t i b < i
+
+theorem WellFormed.childLt {t : Table} (h : WellFormed t) : ChildLt t :=
+  fun _ h1 h2 b => h.child_lt h1 h2 b
+
 /-! ### one step, by cases -/
 
 theorem decStep_cases (t : Table) (cap nd : Nat) (out : List UInt8) (b : Bool) :
@@ -172,14 +180,14 @@ def Inner (nd : Nat) : Prop := NUM_SYMBOLS ≤ nd ∧ nd < NUM_NODES
 
 theorem inner_root : Inner ROOT_IDX := by unfold Inner; decide
 
-theorem decBits_inner (t : Table) (h : WellFormed t) (cap : Nat) (bits : List Bool) :
+theorem decBits_inner_of_childLt (t : Table) (h : ChildLt t) (cap : Nat) (bits : List Bool) :
     ∀ (nd : Nat) (out : List UInt8), Inner nd →
       ∀ nd' out', decBits t cap nd out bits = .more nd' out' → Inner nd' := by
   induction bits with
   | nil => intro nd out hi nd' out' heq; simp [decBits] at heq; exact heq.1 ▸ hi
   | cons b bs ih =>
     intro nd out hi nd' out'
-    have hlt := h.child_lt hi.1 hi.2 b
+    have hlt := h _ hi.1 hi.2 b
     rcases decStep_cases t cap nd out b with ⟨hge, hs⟩ | ⟨_, hs⟩ | ⟨_, _, hs⟩ | ⟨_, hc, hs⟩ <;>
       simp only [decBits, hs]
     · exact ih _ out ⟨hge, by have := hi.2; omega⟩ nd' out'
@@ -187,14 +195,14 @@ theorem decBits_inner (t : Table) (h : WellFormed t) (cap : Nat) (bits : List Bo
     · simp
     · exact ih _ _ inner_root nd' out'
 
-theorem decZeros_terminates (t : Table) (h : WellFormed t) (cap : Nat) (fuel : Nat) :
+theorem decZeros_terminates_of_childLt (t : Table) (h : ChildLt t) (cap : Nat) (fuel : Nat) :
     ∀ (nd : Nat) (out : List UInt8), Inner nd → out.length ≤ cap →
       514 * (cap - out.length) + nd < fuel → decZeros t cap fuel nd out ≠ .diverge := by
   induction fuel with
   | zero => intro nd out _ _ hm; omega
   | succ f ih =>
     intro nd out hi hl hm
-    have hlt := h.child_lt hi.1 hi.2 false
+    have hlt := h _ hi.1 hi.2 false
     rcases decStep_cases t cap nd out false with ⟨hge, hs⟩ | ⟨_, hs⟩ | ⟨_, _, hs⟩ | ⟨_, hc, hs⟩ <;>
       simp only [decZeros, hs]
     · exact ih _ out ⟨hge, by have := hi.2; omega⟩ hl (by omega)
@@ -206,7 +214,7 @@ theorem decZeros_terminates (t : Table) (h : WellFormed t) (cap : Nat) (fuel : N
       rw [e2, List.length_cons]
       omega
 
-theorem decompress_terminates (t : Table) (h : WellFormed t) (input : List UInt8) (cap : Nat) :
+theorem decompress_terminates_of_childLt (t : Table) (h : ChildLt t) (input : List UInt8) (cap : Nat) :
     decompress t input cap ≠ .diverge := by
   simp only [decompress]
   have hb := decBits_bound t cap (input.flatMap byteBits) ROOT_IDX [] (by simp)
@@ -216,8 +224,8 @@ theorem decompress_terminates (t : Table) (h : WellFormed t) (input : List UInt8
     intro hr; subst hr; exact hb
   · next nd o heq =>
     rw [heq] at hb
-    have hi := decBits_inner t h cap _ ROOT_IDX [] inner_root nd o heq
-    apply decZeros_terminates t h cap _ nd o hi hb.2
+    have hi := decBits_inner_of_childLt t h cap _ ROOT_IDX [] inner_root nd o heq
+    apply decZeros_terminates_of_childLt t h cap _ nd o hi hb.2
     have h2 : nd < 513 := hi.2
     have e : zeroFuel cap = 514 * (cap + 2) := by simp [zeroFuel, NUM_NODES, Nat.mul_comm]
     rw [e]
@@ -306,10 +314,10 @@ theorem decZeros_fuel_mono (t : Table) (cap : Nat) (fuel : Nat) :
       · intro _; rfl
       · intro _; rfl
 
-theorem decompress_trunc (t : Table) (h : WellFormed t) (input : List UInt8) (cap' cap : Nat)
+theorem decompress_trunc_of_childLt (t : Table) (h : ChildLt t) (input : List UInt8) (cap' cap : Nat)
     (hc : cap' ≤ cap) : decompress t input cap' = (decompress t input cap).trunc cap' := by
-  have hterm := decompress_terminates t h input cap
-  have hterm' := decompress_terminates t h input cap'
+  have hterm := decompress_terminates_of_childLt t h input cap
+  have hterm' := decompress_terminates_of_childLt t h input cap'
   simp only [decompress] at hterm hterm' ⊢
   have hb := decBits_bound t cap (input.flatMap byteBits) ROOT_IDX [] (by simp)
   have ht := decBits_trunc t cap' cap hc (input.flatMap byteBits) ROOT_IDX [] (by simp)
@@ -340,7 +348,7 @@ theorem decompress_trunc (t : Table) (h : WellFormed t) (input : List UInt8) (ca
 
 /-- capacity error exactly when the decoded output does not fit: at any capacity at which the
 decoder succeeds, the output is longer than `cap` -/
-theorem decompress_capacity_iff (t : Table) (h : WellFormed t) (input : List UInt8) (cap : Nat) :
+theorem decompress_capacity_iff_of_childLt (t : Table) (h : ChildLt t) (input : List UInt8) (cap : Nat) :
     decompress t input cap = .capacity ↔
       ∀ cap' out, decompress t input cap' = .ok out → cap < out.length := by
   constructor
@@ -348,15 +356,15 @@ theorem decompress_capacity_iff (t : Table) (h : WellFormed t) (input : List UIn
     by_cases hle : out.length ≤ cap
     · exfalso
       rcases Nat.le_total cap' cap with h1 | h1
-      · have := decompress_trunc t h input cap' cap h1
+      · have := decompress_trunc_of_childLt t h input cap' cap h1
         rw [hcapacity, hok] at this
         simp [DecResult.trunc] at this
-      · have := decompress_trunc t h input cap cap' h1
+      · have := decompress_trunc_of_childLt t h input cap cap' h1
         rw [hcapacity, hok] at this
         simp [DecResult.trunc, hle] at this
     · omega
   · intro hall
-    have hterm := decompress_terminates t h input cap
+    have hterm := decompress_terminates_of_childLt t h input cap
     revert hterm hall
     generalize hr : decompress t input cap = r
     cases r with
@@ -367,5 +375,108 @@ theorem decompress_capacity_iff (t : Table) (h : WellFormed t) (input : List UIn
       omega
     | capacity => intro _ _; rfl
     | diverge => intro _ hd; exact (hd rfl).elim
+
+/-! ### the same for well-formed tables -/
+
+theorem decBits_inner (t : Table) (h : WellFormed t) (cap : Nat) (bits : List Bool) :
+    ∀ (nd : Nat) (out : List UInt8), Inner nd →
+      ∀ nd' out', decBits t cap nd out bits = .more nd' out' → Inner nd' :=
+  decBits_inner_of_childLt t h.childLt cap bits
+
+theorem decZeros_terminates (t : Table) (h : WellFormed t) (cap : Nat) (fuel : Nat) :
+    ∀ (nd : Nat) (out : List UInt8), Inner nd → out.length ≤ cap →
+      514 * (cap - out.length) + nd < fuel → decZeros t cap fuel nd out ≠ .diverge :=
+  decZeros_terminates_of_childLt t h.childLt cap fuel
+
+theorem decompress_terminates (t : Table) (h : WellFormed t) (input : List UInt8) (cap : Nat) :
+    decompress t input cap ≠ .diverge := decompress_terminates_of_childLt t h.childLt input cap
+
+theorem decompress_trunc (t : Table) (h : WellFormed t) (input : List UInt8) (cap' cap : Nat)
+    (hc : cap' ≤ cap) : decompress t input cap' = (decompress t input cap).trunc cap' :=
+  decompress_trunc_of_childLt t h.childLt input cap' cap hc
+
+theorem decompress_capacity_iff (t : Table) (h : WellFormed t) (input : List UInt8) (cap : Nat) :
+    decompress t input cap = .capacity ↔
+      ∀ cap' out, decompress t input cap' = .ok out → cap < out.length :=
+  decompress_capacity_iff_of_childLt t h.childLt input cap
+
+end Tw.Huffman
+
+namespace Tw.Huffman
+
+/-! ### the `Vec` API: `decompress_into_vec (compress_into_vec xs) = xs` -/
+
+theorem flatMap_codeBits_length_ge (t : Table) (h : WellFormed t) (ss : List Nat)
+    (hs : ∀ s ∈ ss, s < NUM_SYMBOLS) : ss.length ≤ (ss.flatMap (codeBits t)).length := by
+  induction ss with
+  | nil => simp
+  | cons s ss ih =>
+    have h1 := (h.leaf (hs s (by simp))).1
+    have h2 := ih (fun s' hs' => hs s' (by simp [hs']))
+    simp only [List.flatMap_cons, List.length_append, List.length_cons, codeBits_length]
+    omega
+
+theorem length_le_compress (t : Table) (h : WellFormed t) (bug : Bool) (xs : List UInt8) :
+    xs.length ≤ 8 * (compress t bug xs).length := by
+  have hs : ∀ s ∈ xs.map (·.toNat) ++ [EOF], s < NUM_SYMBOLS := by
+    intro s hs
+    simp only [List.mem_append, List.mem_map, List.mem_singleton] at hs
+    rcases hs with ⟨x, _, rfl⟩ | rfl
+    · have := x.toNat_lt; simp [NUM_SYMBOLS]; omega
+    · decide
+  have h1 := flatMap_codeBits_length_ge t h _ hs
+  simp only [List.length_append, List.length_map, List.length_cons, List.length_nil] at h1
+  have h2 : (packBits (streamBits t xs)).length ≤ (compress t bug xs).length := by
+    simp [compress]
+  rw [packBits_length] at h2
+  have h3 : (streamBits t xs).length
+      = ((xs.map (·.toNat) ++ [EOF]).flatMap (codeBits t)).length := rfl
+  omega
+
+theorem decompressVec_compress (t : Table) (h : WellFormed t) (bug : Bool) (xs : List UInt8) :
+    decompressVec t (compress t bug xs) = some xs := by
+  simp only [decompressVec]
+  rw [decompress_compress t h bug xs _ (length_le_compress t h bug xs)]
+
+theorem decompressVec_none_iff (t : Table) (h : WellFormed t) (input : List UInt8) :
+    decompressVec t input = none ↔ decompress t input (8 * input.length) = .capacity := by
+  have hterm := decompress_terminates t h input (8 * input.length)
+  simp only [decompressVec]
+  revert hterm
+  generalize decompress t input (8 * input.length) = r
+  cases r <;> simp
+
+theorem compress_bug_eq (t : Table) (xs : List UInt8) :
+    compress t true xs =
+      compress t false xs ++ (if (compress t false xs).length * 8 = compressedBitLen t xs then [0] else []) := by
+  have hl : (compress t false xs).length = (compressedBitLen t xs + 7) / 8 := compress_length_false t xs
+  simp only [compress, Bool.false_eq_true, false_and, if_false, List.append_nil, true_and] at hl ⊢
+  rw [hl, streamBits_length]
+  congr 1
+  by_cases h0 : compressedBitLen t xs % 8 = 0
+  · rw [if_pos h0, if_pos (by omega)]
+  · rw [if_neg h0, if_neg (by omega)]
+
+end Tw.Huffman
+
+namespace Tw.Huffman
+
+/-- `compress_into_vec` reserves `3 * len + 3` bytes and unwraps: that always suffices -/
+theorem compressedLen_le_vec (t : Table) (h : WellFormed t) (xs : List UInt8) :
+    compressedLen t xs ≤ 3 * xs.length + 3 := by
+  have hsum : ∀ ys : List UInt8, (ys.map fun b => symLen t b.toNat).sum ≤ 24 * ys.length := by
+    intro ys
+    induction ys with
+    | nil => simp
+    | cons y ys ih =>
+      have hy : y.toNat < NUM_SYMBOLS := by
+        have := y.toNat_lt; simp [NUM_SYMBOLS]; omega
+      have := (h.leaf hy).2.1
+      simp only [List.map_cons, List.sum_cons, List.length_cons]
+      omega
+  have he := (h.leaf (show EOF < NUM_SYMBOLS by decide)).2.1
+  have := hsum xs
+  simp only [compressedLen, compressedBitLen]
+  omega
 
 end Tw.Huffman
